@@ -6,7 +6,7 @@ from __future__ import annotations
 
 from typing import Iterator
 
-from ..explore import asdl, charspace, edits, layout, subspace, tokspace
+from ..explore import asdl, charspace, edits, layout, pylib, subspace, tokspace
 
 TOK_BOUNDS = {
     # vocab: (quick n, thorough n)
@@ -38,6 +38,8 @@ def units(tier: str, use: tuple[str, ...], tok_vocabs: tuple[str, ...] = ("expr"
         us += edits.char_units(tier)
     if "chr" in use:
         us += charspace.units("pylay", "bare", 4 if q else 5)
+    if "lib" in use:
+        us += pylib.units(tier, "plain")
     return us
 
 
@@ -63,6 +65,8 @@ def cases(unit: tuple) -> Iterator[tuple[str, str]]:
     elif k == "chr":
         for s in charspace.expand(unit):
             yield s, "exec"
+    elif k == "pylib":
+        yield from pylib.expand(unit)
     else:
         raise ValueError(unit)
 
@@ -89,4 +93,6 @@ def describe(tier: str, use: tuple[str, ...], tok_vocabs: tuple[str, ...], tok_s
         parts.append("character edits of the corpus")
     if "chr" in use:
         parts.append("E-CHR pylay^<=" + ("4" if q else "5"))
+    if "lib" in use:
+        parts.append(pylib.describe(tier))
     return "; ".join(parts)
